@@ -180,7 +180,15 @@ Inductive op :=
   | Close
   | GetFlight (id : Z)
   | Evict (keep : list nat)
-  | Merge (out : path) (ins : list path) (fault : option nat).
+  | Merge (out : path) (ins : list path) (fault : option nat)
+  (* associated stores.  [Inject p vals]: a closed store file holding one non-base field set with the records
+     [vals] appears at p (written by a create session with associated_files elsewhere; how it is written is C03's
+     subject).  [GetA i assocs]: __getitem__ on a store opened together with the merged associated stores
+     [assocs]: the base payload and, per associated store, the record located through THAT store's own
+     cumulative size table.  (Merged directories cannot change while a handle is open, so the tables the real
+     handle computed when it was opened are the ones recomputed here.) *)
+  | Inject (p : path) (vals : list Z)
+  | GetA (i : nat) (assocs : list path).
 
 Inductive err :=
   | ENoHandle | EBusy | EExists | EMissing | ENotWritable | EIndex | EFull | ETooLarge
@@ -196,7 +204,8 @@ Inductive out :=
   | OItems (l : list Z) (e : option err)
   | OLen (n : nat)
   | ONone
-  | OErr (e : err).
+  | OErr (e : err)
+  | OItemA (t : Z) (vs : list Z).
 
 (* the property does not say WHICH error a rejected trajectory / refused merge is reported with *)
 Definition coarse (o : out) : out :=
@@ -664,6 +673,26 @@ Definition merge_run (c : cfg) (fs : fsys) (outp : path) (ins : list path) (faul
   run_steps c fs outp ins (merge_plan c fs ins) fs fault.
 
 (* ------------------------------------------------------------------------------------------- *)
+(* associated merged stores: every field set is located through its own store's size table       *)
+(* ------------------------------------------------------------------------------------------- *)
+Definition col_value (fs : fsys) (p : path) (i : nat) : option Z :=
+  match merged_parts fs p with
+  | Some l => option_map tag (nc_load (map f_items l) (Some (cum (map (fun f => length (f_items f)) l))) i)
+  | None => None
+  end.
+
+Fixpoint col_values (fs : fsys) (ps : list path) (i : nat) : option (list Z) :=
+  match ps with
+  | [] => Some []
+  | p :: r => match col_value fs p i, col_values fs r i with
+              | Some v, Some vs => Some (v :: vs)
+              | _, _ => None
+              end
+  end.
+
+Definition assoc_sig : Z := 2.
+
+(* ------------------------------------------------------------------------------------------- *)
 (* the step function of the world                                                              *)
 (* ------------------------------------------------------------------------------------------- *)
 Definition new_file_handle (p : path) (cap : option nat) : handle :=
@@ -697,8 +726,20 @@ Definition step (c : cfg) (w : world) (o : op) : world * out :=
       end
   | Merge outp ins fault, None =>
       let '(fs1, r) := merge_run c fs outp ins fault in (mkW fs1 None, r)
-  | (Create _ _ | CreateMem _ | OpenR _ _ | OpenA _ _ | Merge _ _ _), Some _ => (w, OErr EBusy)
+  | Inject p vals, None =>
+      match flookup p fs with
+      | Some _ => (w, OErr EExists)
+      | None => (mkW (fupd p (NFile (mkNc (map (fun v => mkItem v None true) vals) assoc_sig false [])) fs) None, OUnit)
+      end
+  | (Create _ _ | CreateMem _ | OpenR _ _ | OpenA _ _ | Merge _ _ _ | Inject _ _), Some _ => (w, OErr EBusy)
   | _, None => (w, OErr ENoHandle)
+  | GetA i ps, Some h =>
+      let '(h1, r) := get_item fs h i in
+      (mkW fs (Some h1),
+       match r with
+       | inl t => match col_values fs ps i with Some vs => OItemA t vs | None => OErr EIndex end
+       | inr e => OErr e
+       end)
   | Add t, Some h => let '(fs1, h1, r) := add c fs h t in (mkW fs1 (Some h1), r)
   | Get i, Some h =>
       let '(h1, r) := get_item fs h i in
@@ -790,8 +831,10 @@ Definition spec_step (s : sworld) (o : op) : sworld * out :=
       | Some _ => (mkSW (s_fs s) (Some (mkSH (SLFile p) MAppend cap)), OUnit)
       end
   | Merge _ _ _, None => (s, OUnit)       (* merges are specified separately (C09 / C10) *)
-  | (Create _ _ | CreateMem _ | OpenR _ _ | OpenA _ _ | Merge _ _ _), Some _ => (s, OErr EBusy)
+  | Inject _ _, None => (s, OUnit)        (* so are associated stores (C09) *)
+  | (Create _ _ | CreateMem _ | OpenR _ _ | OpenA _ _ | Merge _ _ _ | Inject _ _), Some _ => (s, OErr EBusy)
   | _, None => (s, OErr ENoHandle)
+  | GetA _ _, Some _ => (s, OUnit)
   | Add t, Some h =>
       match sh_mode h with
       | MRead => (s, OErr ENotWritable)
